@@ -70,11 +70,57 @@ let h_r = memo ripemd160
 let h_1 = memo sha1
 let h_2 = memo sha256
 
+(* ---- sessions:  ses <libsigs> <coresigs> <step> ...
+     sigs = "_" or  msghex/sighex/pkhex=V|I  joined by ","  (pkhex may be "*"); an evaluation without message, or a
+            triple that is not listed, makes the oracle raise
+     step = N/<id>/<cmds>/<msg|N>/<env|N>   constructor          E/<id>/<msg|N>/<env|N>   evaluate
+   answer: per step "-" | "MISSING" | <verdict>:<stack>, joined by ";",  " | ",  the same for Core with ":<limits>" *)
+let oracle3_of_tok t =
+  let tbl = Hashtbl.create 16 in
+  if t <> "_" then
+    List.iter (fun ent ->
+        match String.split_on_char '=' ent with
+        | [k; v] -> Hashtbl.replace tbl k (if v = "V" then SigValid else SigInvalid)
+        | _ -> failwith "sig3") (String.split_on_char ',' t);
+  fun m sg pk ->
+    match m with
+    | None -> SigRaise
+    | Some mb ->
+        let pre = hex_of_bytes mb ^ "/" ^ hex_of_bytes sg ^ "/" in
+        (match Hashtbl.find_opt tbl (pre ^ hex_of_bytes pk) with
+         | Some r -> r
+         | None -> (match Hashtbl.find_opt tbl (pre ^ "*") with Some r -> r | None -> SigRaise))
+
+let optb s = if s = "N" then None else Some (bytes_of_hex s)
+let opte s = if s = "N" then None else Some (env_of_tok s)
+
+let step_of_tok t =
+  match String.split_on_char '/' t with
+  | ["N"; i; c; m; e] -> SNew (z_of i, cmds_of_tok c, optb m, opte e)
+  | ["E"; i; m; e] -> SEval (z_of i, optb m, opte e)
+  | _ -> failwith "step"
+
 let dispatch = function
+  | "ses" :: sg :: csg :: steps ->
+      let o = oracle3_of_tok sg and co = oracle3_of_tok csg and xs = List.map step_of_tok steps in
+      let lib = lib_session h_r h_1 h_2 o [] xs in
+      let ltok = function
+        | ONew -> "-" | OMissing -> "MISSING"
+        | ORes r -> verdict_tok r.r_verdict ^ ":" ^ stack_tok r.r_stack in
+      let ctok r =
+        match r with
+        | REval (cmds, m, e) ->
+            (match core_obs h_r h_1 h_2 co consensus_flags (REval (cmds, m, env_u32_version e)) with
+             | Some (cv, cs) ->
+                 verdict_tok cv ^ ":" ^ stack_tok cs ^ ":" ^ (if core_limits_ok cmds then "L1" else "L0")
+             | None -> "-")
+        | RNew -> "-"
+        | RMissing -> "MISSING" in
+      String.concat ";" (List.map ltok lib) ^ " | " ^ String.concat ";" (List.map ctok (resolve [] xs))
   | ["ev"; e; sg; csg; c] ->
       let env = env_of_tok e and o = oracle_of_tok sg and co = oracle_of_tok csg and cmds = cmds_of_tok c in
       let l = lib_eval h_r h_1 h_2 o env cmds in
-      let (cv, cs) = core_eval h_r h_1 h_2 co env consensus_flags cmds in
+      let (cv, cs) = core_eval h_r h_1 h_2 co (env_u32_version env) consensus_flags cmds in
       verdict_tok l.r_verdict ^ " " ^ stack_tok l.r_stack ^ " | " ^ verdict_tok cv ^ " " ^ stack_tok cs
       ^ " " ^ (if core_limits_ok cmds then "L1" else "L0")
   | ["hash"; f; h] ->
